@@ -157,6 +157,17 @@ struct gauss_seidel {
 #endif
         }
 
+        // Number of threads in the team that executes the current parallel
+        // region. It may differ from num_threads() seen at setup (nested
+        // regions, thread limits, omp_set_num_threads(), OMP_DYNAMIC).
+        static int team_size() {
+#ifdef _OPENMP
+            return omp_get_num_threads();
+#else
+            return 1;
+#endif
+        }
+
         template <class Matrix, class VectorRHS, class VectorX>
         static void serial_sweep(
                 const Matrix &A, const VectorRHS &rhs, VectorX &x, bool forward)
@@ -280,27 +291,30 @@ struct gauss_seidel {
 
 #pragma omp parallel
                 {
-                    int tid = thread_id();
-                    tasks[tid].reserve(nlev);
+                    // The team may be smaller than nthreads: every task list
+                    // has to be filled by somebody.
+                    for(int tid = thread_id(); tid < nthreads; tid += team_size()) {
+                        tasks[tid].reserve(nlev);
 
-                    for(ptrdiff_t lev = 0; lev < nlev; ++lev) {
-                        // split each level into tasks.
-                        ptrdiff_t lev_size = start[lev+1] - start[lev];
-                        ptrdiff_t chunk_size = (lev_size + nthreads - 1) / nthreads;
+                        for(ptrdiff_t lev = 0; lev < nlev; ++lev) {
+                            // split each level into tasks.
+                            ptrdiff_t lev_size = start[lev+1] - start[lev];
+                            ptrdiff_t chunk_size = (lev_size + nthreads - 1) / nthreads;
 
-                        ptrdiff_t beg = std::min(tid * chunk_size, lev_size);
-                        ptrdiff_t end = std::min(beg + chunk_size, lev_size);
+                            ptrdiff_t beg = std::min(tid * chunk_size, lev_size);
+                            ptrdiff_t end = std::min(beg + chunk_size, lev_size);
 
-                        beg += start[lev];
-                        end += start[lev];
+                            beg += start[lev];
+                            end += start[lev];
 
-                        tasks[tid].push_back(task(beg, end));
+                            tasks[tid].push_back(task(beg, end));
 
-                        // count rows and nonzeros in the current task
-                        thread_rows[tid] += end - beg;
-                        for(ptrdiff_t i = beg; i < end; ++i) {
-                            ptrdiff_t j = order[i];
-                            thread_cols[tid] += row_nonzeros(A, j);
+                            // count rows and nonzeros in the current task
+                            thread_rows[tid] += end - beg;
+                            for(ptrdiff_t i = beg; i < end; ++i) {
+                                ptrdiff_t j = order[i];
+                                thread_cols[tid] += row_nonzeros(A, j);
+                            }
                         }
                     }
                 }
@@ -308,64 +322,76 @@ struct gauss_seidel {
                 // 4. reorganize matrix data for better cache and NUMA locality.
 #pragma omp parallel
                 {
-                    int tid = thread_id();
+                    for(int tid = thread_id(); tid < nthreads; tid += team_size()) {
+                        col[tid].reserve(thread_cols[tid]);
+                        val[tid].reserve(thread_cols[tid]);
+                        ord[tid].reserve(thread_rows[tid]);
+                        ptr[tid].reserve(thread_rows[tid] + 1);
+                        ptr[tid].push_back(0);
 
-                    col[tid].reserve(thread_cols[tid]);
-                    val[tid].reserve(thread_cols[tid]);
-                    ord[tid].reserve(thread_rows[tid]);
-                    ptr[tid].reserve(thread_rows[tid] + 1);
-                    ptr[tid].push_back(0);
+                        for(task &t : tasks[tid]) {
+                            ptrdiff_t loc_beg = ptr[tid].size() - 1;
+                            ptrdiff_t loc_end = loc_beg;
 
-                    for(task &t : tasks[tid]) {
-                        ptrdiff_t loc_beg = ptr[tid].size() - 1;
-                        ptrdiff_t loc_end = loc_beg;
+                            for(ptrdiff_t r = t.beg; r < t.end; ++r, ++loc_end) {
+                                ptrdiff_t i = order[r];
 
-                        for(ptrdiff_t r = t.beg; r < t.end; ++r, ++loc_end) {
-                            ptrdiff_t i = order[r];
+                                ord[tid].push_back(i);
 
-                            ord[tid].push_back(i);
+                                for(auto a = row_begin(A, i); a; ++a) {
+                                    col[tid].push_back(a.col());
+                                    val[tid].push_back(a.value());
+                                }
 
-                            for(auto a = row_begin(A, i); a; ++a) {
-                                col[tid].push_back(a.col());
-                                val[tid].push_back(a.value());
+                                ptr[tid].push_back(col[tid].size());
                             }
 
-                            ptr[tid].push_back(col[tid].size());
+                            t.beg = loc_beg;
+                            t.end = loc_end;
                         }
-
-                        t.beg = loc_beg;
-                        t.end = loc_end;
                     }
                 }
             }
 
             template <class Vector1, class Vector2>
             void sweep(const Vector1 &rhs, Vector2 &x) const {
+                // every task list has one entry per level:
+                const size_t nlev = tasks[0].size();
+
 #pragma omp parallel
                 {
-                    int tid = thread_id();
+                    // The team that executes this region may be smaller than
+                    // the number of threads the tasks were created for. Each
+                    // thread takes every team_size()-th task of the level,
+                    // so that no task is skipped.
+                    const int first = thread_id();
+                    const int team  = team_size();
 
-                    for(const task &t : tasks[tid]) {
-                        for(ptrdiff_t r = t.beg; r < t.end; ++r) {
-                            ptrdiff_t i   = ord[tid][r];
-                            ptrdiff_t beg = ptr[tid][r];
-                            ptrdiff_t end = ptr[tid][r+1];
+                    for(size_t lev = 0; lev < nlev; ++lev) {
+                        for(int tid = first; tid < nthreads; tid += team) {
+                            const task &t = tasks[tid][lev];
 
-                            value_type D = math::identity<value_type>();
-                            rhs_type X;
-                            X = rhs[i];
+                            for(ptrdiff_t r = t.beg; r < t.end; ++r) {
+                                ptrdiff_t i   = ord[tid][r];
+                                ptrdiff_t beg = ptr[tid][r];
+                                ptrdiff_t end = ptr[tid][r+1];
 
-                            for(ptrdiff_t j = beg; j < end; ++j) {
-                                ptrdiff_t  c = col[tid][j];
-                                value_type v = val[tid][j];
+                                value_type D = math::identity<value_type>();
+                                rhs_type X;
+                                X = rhs[i];
 
-                                if (c == i)
-                                    D = v;
-                                else
-                                    X -= v * x[c];
+                                for(ptrdiff_t j = beg; j < end; ++j) {
+                                    ptrdiff_t  c = col[tid][j];
+                                    value_type v = val[tid][j];
+
+                                    if (c == i)
+                                        D = v;
+                                    else
+                                        X -= v * x[c];
+                                }
+
+                                x[i] = math::inverse(D) * X;
                             }
-
-                            x[i] = math::inverse(D) * X;
                         }
 
                         // each task corresponds to a level, so we need
